@@ -443,6 +443,51 @@ def make_x6(backend, kind):
     return run
 
 
+def make_x7(backend, chunk, seed, per_chunk=120):
+    """alias() inserted at a random position of a random pipeline does not change the result (whenever both are accepted)"""
+    from .. import pipelines as P
+
+    def run(carve):
+        import random
+        import warnings
+
+        S = [st for st in P.steps() + P.expr_steps()]
+        B = {st.label: st for st in P.steps()}
+        rnd = random.Random(f"C16/X7/{seed}/{backend}/{chunk}")
+        n, bad, tried = 0, [], 0
+        with warnings.catch_warnings():
+            warnings.simplefilter("ignore")
+            while n < per_chunk and tried < per_chunk * 30:
+                tried += 1
+                depth = rnd.choice((2, 3, 3, 4))
+                pipe = [rnd.choice(S) for _ in range(depth)]
+                if any(st.label == "alias" for st in pipe) or sum(1 for st in pipe if st.breaks) > 1:
+                    continue
+                pos = rnd.randint(0, depth)
+                with_alias = pipe[:pos] + [B["alias"]] + pipe[pos:]
+                pl_ = P.plan(pipe)
+                if pl_ is None or pl_[1] or P.plan(with_alias) is None:
+                    continue
+                kind = rnd.choice(("mixed", "mixed", "single"))
+                a = P.run_pipeline(backend, pipe, kind)
+                if a[0] != "ok":
+                    continue
+                b = P.run_pipeline(backend, with_alias, kind)
+                if b[0] in ("refused", "n/a", "hidden-group-col"):
+                    continue
+                n += 1
+                lab = f"[{backend},{kind}] " + " >> ".join(st.label for st in with_alias)
+                if b[0] != "ok":
+                    bad.append(f"{lab}: with the alias the pipeline gives {b[:2]}, without it is accepted")
+                    continue
+                ordered = pl_[0] and P.plan(with_alias)[0]
+                if a[1] != b[1] or P.norm_rows(a[2], ordered) != P.norm_rows(b[2], ordered):
+                    bad.append(f"{lab}: columns {b[1]} / {len(b[2])} rows; without the alias {a[1]} / {len(a[2])} rows (or other values)")
+        return _enum_outcome(f"[{backend}] alias() inserted at a random position of {per_chunk} random pipelines leaves the result unchanged (chunk {chunk}, seed {seed})", n, bad)
+
+    return run
+
+
 def _conc(goal, fn):
     def run(carve):
         n, bad = fn()
@@ -473,6 +518,13 @@ def obligations(tier):
         for kind in ("mixed", "single") if tier == "quick" else ("mixed", "single", "empty", "tall"):
             obs.append(Obligation(f"C16/X6/{be}/{kind}", "X6", "alias() / alias(keep_col_refs=True) is transparent for every following step", make_x6(be, kind), functions=[fi(verbs_mod.alias), fi(TS.Cache.update), fi(VT.Alias._clone)],
                                   bounded="18 context pipelines (incl. hidden grouping columns) x 13 following steps; native execution"))
+    import os
+
+    seed = int(os.environ.get("VERIF_SEED", "0") or 0)
+    for be in ("polars", "sqlite"):
+        for chunk in range(4 if tier == "quick" else 16):
+            obs.append(Obligation(f"C16/X7/{be}/{chunk}", "X7", "alias() inserted at a random position of a random pipeline is transparent (native)", make_x7(be, chunk, seed), functions=[fi(verbs_mod.alias), fi(TS.Cache.update), fi(VT.Alias._clone)],
+                                  bounded=f"120 seeded random pipelines of 2-4 steps per chunk, alias at a random position; seed {seed}"))
     return obs
 
 
